@@ -1224,10 +1224,33 @@ func (c *Canonicalizer) NormalizeOperand(v ssa.Value, context ssa.Instruction) s
 		if name, exists := c.registerMap[v]; exists {
 			return name
 		}
-		return fmt.Sprintf("<func_ref:%s:%s>", operand.Name(), sanitizeType(operand.Signature))
+		return fmt.Sprintf("<func_ref:%s:%s>", funcRefName(operand, context), sanitizeType(operand.Signature))
 	default:
 		return c.normalizeValue(v)
 	}
+}
+
+// funcRefName names a referenced function for the canonical IR. A function outside the family of the function being
+// canonicalised is named by its full identity (package path, receiver, name), so that same-named functions of
+// different packages (json.Marshal, xml.Marshal) do not render alike. A reference that stays inside the family
+// (recursion, the function's own literals) is named relative to the family root, so that renaming the function
+// does not change its fingerprint.
+func funcRefName(fn *ssa.Function, context ssa.Instruction) string {
+	if context != nil && context.Parent() != nil {
+		root := familyRoot(fn)
+		if root == familyRoot(context.Parent()) {
+			return "self" + strings.TrimPrefix(fn.Name(), root.Name())
+		}
+	}
+	return fn.String()
+}
+
+// familyRoot returns the outermost function enclosing fn (fn itself unless it is a function literal).
+func familyRoot(fn *ssa.Function) *ssa.Function {
+	for fn.Parent() != nil {
+		fn = fn.Parent()
+	}
+	return fn
 }
 
 func packageQualifier(p *types.Package) string {
